@@ -180,11 +180,21 @@ func c20Scenario(seed uint64) (*core.Scenario, *C20Extra, string) {
 	for i := 0; i < nops && n > 0; i++ {
 		pos := r.Intn(n)
 		switch x := r.Intn(12); {
-		case x < 2:
+		case x < 1:
 			ex.Ops = append(ex.Ops, dsim.COp{Kind: "flip", Pos: pos, Val: uint64(r.Intn(8))})
 		case x < 3 && len(idPos) > 1:
 			// a node reference overwritten with another id of the same stream: dangling or cyclic references
-			ex.Ops = append(ex.Ops, dsim.COp{Kind: "splice", Pos: idPos[r.Intn(len(idPos))], Src: idPos[r.Intn(len(idPos))], Len: 11})
+			src := r.Intn(len(idPos))
+			dst := r.Intn(len(idPos))
+			if r.Chance(2, 3) {
+				// a record names its own id first and its children's ids right after: copying an id over one
+				// of the next few id fields tends to turn a child reference into a self reference (a cycle)
+				dst = src + r.Range(1, 5)
+				if dst >= len(idPos) {
+					dst = len(idPos) - 1
+				}
+			}
+			ex.Ops = append(ex.Ops, dsim.COp{Kind: "splice", Pos: idPos[dst], Src: idPos[src], Len: 11})
 		case x < 3:
 			ex.Ops = append(ex.Ops, dsim.COp{Kind: "flip", Pos: pos, Val: uint64(r.Intn(8))})
 		case x < 6 && ex.Kind == "grb" && len(fieldStarts) > 0:
